@@ -30,6 +30,7 @@ type genCH struct {
 	echPos         int // position of the ECH extension (-1: none)
 	class          int // expected findSNIAndECH class: 0 ok, 2 error (duplicates / not a ClientHello)
 	kind           string
+	unparsable     bool // a complete handshake message findSNIAndECH cannot parse (it answers io.ErrUnexpectedEOF)
 }
 
 func be16(v int) []byte { return []byte{byte(v >> 8), byte(v)} }
@@ -163,6 +164,23 @@ func makeCH(r *u.Rng, target int) genCH {
 	body = append(body, be16(len(eb))...)
 	body = append(body, eb...)
 	g.raw = append([]byte{1, byte(len(body) >> 16), byte(len(body) >> 8), byte(len(body))}, body...)
+	if g.class == 0 && r.Intn(25) == 0 {
+		// complete messages that can never parse: an SNI extension with an empty body appended
+		// (keeping every length field consistent), or one more byte behind the message
+		if r.Bool() && g.sniPos == -1 {
+			eb2 := append(append([]byte{}, eb...), 0, 0, 0, 0)
+			b2 := append(append([]byte{}, body[:len(body)-len(eb)-2]...), be16(len(eb2))...)
+			b2 = append(b2, eb2...)
+			g.raw = append([]byte{1, byte(len(b2) >> 16), byte(len(b2) >> 8), byte(len(b2))}, b2...)
+			g.kind = "sni-empty-ext"
+		} else {
+			g.raw = append(g.raw, 22)
+			g.kind = "trailing-byte"
+		}
+		g.class, g.unparsable = 1, true
+		g.sniPos, g.echPos = -1, -1
+		return g
+	}
 	if g.class == 0 && r.Intn(60) == 0 {
 		g.raw[0] = byte(r.Pick(0, 2, 22))
 		g.class = 2
@@ -253,6 +271,10 @@ func runStream(w *bufio.Writer, r *u.Rng, scramble bool, g genCH, extra []byte, 
 		if scramble && !complete && has {
 			fail("scrambler/hasdata-early", "HasData is true before the whole ClientHello is queued")
 		}
+		if complete && len(W) > 0 && !has && g.unparsable {
+			fail("scrambler/never-sent/unparsable-complete-hello", "a complete handshake message that findSNIAndECH cannot parse is queued, Write reported no error, and HasData stays false: it is never sent and nothing reports why")
+			return false
+		}
 		if complete && len(W) > 0 && !has && g.class == 0 {
 			key := "scrambler/never-sent"
 			if scramble && g.sniPos == -1 && g.echPos != -1 {
@@ -332,7 +354,7 @@ func runStream(w *bufio.Writer, r *u.Rng, scramble bool, g genCH, extra []byte, 
 		}
 	}
 	state()
-	if g.class == 0 {
+	if g.class == 0 || g.unparsable {
 		if r.Intn(4) == 0 && len(extra) > 0 { // more data queued before the first pop
 			write(extra, true)
 			extra = nil
